@@ -36,6 +36,7 @@ type Frag struct {
 	fret    string
 	fattrs  string
 	nres    int
+	nuse    int
 	// reference sites (for fault injection): token -> kind
 	Refs []Ref
 	// Kinds covered (instruction / terminator / constant-expression struct names of the library).
